@@ -389,7 +389,9 @@ def bitstream(values, w):
     return [sum(bits[8 * j + t] << (7 - t) for t in range(8)) for j in range(len(bits) // 8)]
 
 
-def enc_image(variant, entries, theta, seed_hash, ordered, empty, si_flag=False):
+def enc_image(variant, entries, theta, seed_hash, ordered, empty, si_flag=False, long_pre=None, extra_flags=0):
+    """variant 1..4; long_pre (serVer 3, non-empty only): write 2 or 3 preamble longs although fewer would do;
+    extra_flags: undefined flag bits or-ed in (readers ignore them)"""
     n = len(entries); est = theta < MAX_THETA
     body = [b for e in entries for b in le(e, 8)]
     if variant == 1:
@@ -405,7 +407,9 @@ def enc_image(variant, entries, theta, seed_hash, ordered, empty, si_flag=False)
     if variant == 3:
         single = n == 1 and not est and not empty
         pre = 1 if empty else (3 if est else (1 if single else 2))
-        flags = 2 | 8 | (4 if empty else 0) | (16 if ordered else 0) | (32 if (si_flag and single) else 0)
+        if long_pre and not empty and long_pre >= pre:
+            pre = long_pre; single = False
+        flags = 2 | 8 | (4 if empty else 0) | (16 if ordered else 0) | (32 if (si_flag and single) else 0) | extra_flags
         out = [pre, 3, 3, 0, 0, flags] + le(seed_hash, 2)
         if empty:
             return out
@@ -421,7 +425,7 @@ def enc_image(variant, entries, theta, seed_hash, ordered, empty, si_flag=False)
         ored |= d
     w = ored.bit_length()
     neb = (n.bit_length() + 7) // 8
-    out = [2 if est else 1, 4, 3, w, neb, 2 | 8 | 16] + le(seed_hash, 2)
+    out = [2 if est else 1, 4, 3, w, neb, 2 | 8 | 16 | extra_flags] + le(seed_hash, 2)
     if est:
         out += le(theta, 8)
     return out + le(n, neb) + bitstream(ds, w)
@@ -462,7 +466,7 @@ def gen_foreign_case(rng, cid, tier, big=False):
     sh = cfg[4]
     ops = [(7, [])]
     # always: estimating images without entries (serVer 2 and 3: NOT empty), entry counts at powers of 256 (serVer 4)
-    forced = [(2, "zero"), (3, "zero"), (4, "p256"), (rng.choice([1, 2, 3]), "p256")]
+    forced = [(2, "zero"), (3, "zero"), (4, "p256"), (rng.choice([1, 2, 3]), "p256"), (3, "single"), (3, "few")]
     if big:
         forced.append((4, "p65536"))
     for i in range(10 if tier == "quick" else 30):
@@ -471,7 +475,15 @@ def gen_foreign_case(rng, cid, tier, big=False):
         else:
             variant, shape = rng.choice([1, 2, 3, 3, 4, 4]), None
         es, theta, ordered, empty = random_abs(rng, variant, shape)
-        img = enc_image(variant, es, theta, sh, ordered, empty, si_flag=rng.random() < 0.5)
+        # serVer 3 with more preamble longs than necessary (forced for the single / few shapes, random otherwise);
+        # undefined flag bits 6 and 7 (and SINGLE_ITEM on sketches that are not single) set at random: readers ignore them
+        long_pre = None
+        if variant == 3 and (i in (4, 5) or rng.random() < 0.2):
+            long_pre = rng.choice([2, 3]) if theta == MAX_THETA else 3
+        extra = rng.choice([0, 0, 64, 128, 192, 32]) if variant in (3, 4) else 0
+        if extra == 32 and variant == 3 and len(es) == 1:
+            extra = 0
+        img = enc_image(variant, es, theta, sh, ordered, empty, si_flag=rng.random() < 0.5, long_pre=long_pre, extra_flags=extra)
         if shape == "p65536":
             ops.append((12, img)); ops.append((13, [1])); ops.append((15, [1]))     # compressed forms only (see above)
         else:
@@ -525,6 +537,24 @@ def swapped_image(rng, sh):
     return enc_image(variant, es, theta, sh, True, False)
 
 
+def flag_variant_image(rng, sh):
+    """images whose flags contradict their content: EMPTY set although entries follow (serVer 3 and 4), ORDERED cleared in
+    serVer 4, undefined bits; the reader must answer Err or a consistent value"""
+    variant = rng.choice([3, 4, 4])
+    es, theta, ordered, empty = random_abs(rng, variant, rng.choice(["few", "block", "single", "many"]))
+    img = enc_image(variant, es, theta, sh, ordered, empty)
+    kind = rng.choice(["empty", "empty", "unordered", "bits", "empty_badseed"])
+    if kind in ("empty", "empty_badseed"):
+        img[5] |= 4
+        if kind == "empty_badseed":
+            img[6] ^= 0x5a
+    elif kind == "unordered":
+        img[5] &= ~16 & 0xff
+    else:
+        img[5] |= rng.choice([1, 32, 64, 128, 0xe1])
+    return img
+
+
 def gen_malformed_case(rng, cid, tier):
     """C14: structure-aware mutations of valid images of every variant, and random bytes; Ok values are
     queried by the harness and re-serialized both ways"""
@@ -534,7 +564,11 @@ def gen_malformed_case(rng, cid, tier):
     for k in range(14 if tier == "quick" else 40):
         if k < 2 or rng.random() < 0.05:
             img = swapped_image(rng, sh)
-            ops.append((12, img)); ops.append((13, [0])); ops.append((13, [1]))
+            ops.append((12, img)); ops.append((13, [0])); ops.append((13, [1])); ops.append((15, [rng.getrandbits(1)]))
+            continue
+        if k < 5 or rng.random() < 0.08:
+            img = flag_variant_image(rng, sh)
+            ops.append((12, img)); ops.append((13, [0])); ops.append((13, [1])); ops.append((15, [rng.getrandbits(1)]))
             continue
         if rng.random() < 0.06:
             img = [rng.randrange(256) for _ in range(rng.randint(0, 40))]
@@ -544,7 +578,8 @@ def gen_malformed_case(rng, cid, tier):
             variant = rng.choice([1, 2, 3, 3, 4, 4, 4])
             es, theta, ordered, empty = random_abs(rng, variant)
             img = mutate(rng, enc_image(variant, es, theta, sh, ordered, empty, si_flag=rng.random() < 0.3))
-        ops.append((12, img)); ops.append((13, [0])); ops.append((13, [1]))
+        # whatever is accepted is re-serialized both ways and forked through one writer (deserialize o serialize = id)
+        ops.append((12, img)); ops.append((13, [0])); ops.append((13, [1])); ops.append((15, [rng.getrandbits(1)]))
     return Case(cid, cfg, ops, tag="theta-malformed")
 
 
